@@ -44,14 +44,6 @@ pub proof fn axiom_pat_kind_fn<F: FnMut(char) -> bool>(f: F, pred: spec_fn(char)
 {
 }
 
-/// A `str` is at most isize::MAX bytes long (allocation limit of Rust objects).
-#[verifier::external_body]
-pub broadcast proof fn axiom_str_len_bound(s: &str)
-    ensures
-        #[trigger] s.spec_bytes().len() <= usize::MAX,
-{
-}
-
 /// `&str` values with the same characters are indistinguishable (Verus encodes `match s { "lit" => .. }`
 /// and `a == b` on `&str` as equality of the values).
 #[verifier::external_body]
